@@ -196,3 +196,82 @@ merge = Contract("C08.merge_intervals", target=lambda: ("ast", "bionumpy/arithme
 # for C09) is instantiated here as well - for ANY size, i.e. also for coordinates that do not fit 32 bits.
 from contracts.c09 import mk_from_intervals      # noqa: E402
 CONTRACTS = [extend_to_size, clip, merge, mk_from_intervals("C08")]
+
+
+# --- get_pileup / get_boolean_mask: what reaches the run-length builder (npstructures RunLength2dArray.from_intervals: outside /repo, bounded) is the
+# caller's start and stop columns UNCHANGED - every row, no filter, no clamp - together with the contig size; an empty table gives the all-zero track.
+from pyvc.core import SRec, Opaque      # noqa: E402
+
+
+def _setup_pileup(fn_name):
+    def setup(ctx):
+        st = St()
+        st.n, st.size = z3.Int("n_intervals"), z3.Int("chromosome_size")
+        st.s0, st.e0 = z3.Function("start", z3.IntSort(), z3.IntSort()), z3.Function("stop", z3.IntSort(), z3.IntSort())
+        st.cols = {"chromosome": Opaque("chromosome"), "start": SArr.fresh(st.n, lambda i: st.s0(I(i))), "stop": SArr.fresh(st.n, lambda i: st.e0(I(i)))}
+        st.table = STable(st.cols, st.n)
+        st.args = [st.table, st.size]
+        st.seen = None
+        _hp["st"] = st
+        from bionumpy.arithmetics.intervals import GenomicRunLengthArray
+
+        def track(ip, args, kwargs, lineno):
+            st.direct = list(args)
+            return Opaque("track")
+        st.direct = None
+        ctx.ip.class_models[GenomicRunLengthArray] = track
+        return st
+    return setup
+
+
+_hp = {}
+
+
+class _R2D:
+    """RunLength2dArray: from_intervals records its arguments; the reductions of the result are abstract"""
+
+    def getattr(self, ip, name, lineno):
+        if name == "from_intervals":
+            class _F:
+                def sym_call(self_, ip, args, kwargs, lineno):
+                    _hp["st"].seen = (list(args), dict(kwargs))
+                    return _R2D()
+            return _F()
+        if name in ("sum", "any"):
+            class _G:
+                def sym_call(self_, ip, args, kwargs, lineno):
+                    return Opaque("run-length reduction: " + name)
+            return _G()
+        raise Unsupported("RunLength2dArray.%s" % name)
+
+
+def _ens_pileup(ctx, st, ret):
+    if st.seen is None:
+        d = st.direct
+        ok = d is not None and len(d) == 2 and isinstance(d[0], SArr) and isinstance(d[1], SArr)
+        return [("the.run-length.builder.is.bypassed.only.for.an.empty.table", st.n == 0),
+                ("the.empty.track.is.one.run [0, size) of value 0", ok and And(I(d[0].length) == 2, I(d[0].at(0)) == 0, I(d[0].at(1)) == st.size, I(d[1].length) == 1, I(d[1].at(0)) == 0))]
+    a, kw = st.seen
+    ok = len(a) == 3 and not kw
+    return [("the.builder.receives (starts, stops, size)", ok),
+            ("starts: the caller's start column, every row", ok and a[0] is st.cols["start"]),
+            ("stops: the caller's stop column, every row", ok and a[1] is st.cols["stop"]),
+            ("size: the contig size given", ok and a[2] is st.size)]
+
+
+def _mk_pileup(fn_name, canary):
+    import importlib
+    return Contract("C08.%s" % fn_name, target=lambda: getattr(importlib.import_module("bionumpy.arithmetics.intervals"), fn_name), setup=_setup_pileup(fn_name),
+                    requires=lambda ctx, st: [st.n >= 0, st.size >= 0], ensures=_ens_pileup,
+                    callees={"npstructures.runlengtharray.RunLength2dArray.from_intervals": lambda ip, args, kwargs, lineno: _R2D().getattr(ip, "from_intervals", lineno).sym_call(ip, [a for a in args if not isinstance(a, type)], kwargs, lineno),
+                             "bionumpy.arithmetics.intervals.GenomicRunLengthArray.from_rle": lambda ip, args, kwargs, lineno: Opaque("track"),
+                             "npstructures.runlengtharray.RunLengthArray.from_rle": lambda ip, args, kwargs, lineno: Opaque("track")},
+                    class_models=None, canaries=[canary])
+
+
+pileup = _mk_pileup("get_pileup", ("intervals starting on the last base filtered out", "RunLength2dArray.from_intervals(intervals.start, intervals.stop, chromosome_size)",
+                                   "RunLength2dArray.from_intervals(intervals.start[intervals.start < chromosome_size - 1], intervals.stop[intervals.start < chromosome_size - 1], chromosome_size)"))
+CONTRACTS.append(pileup)
+
+
+from pyvc.core import Unsupported     # noqa: E402
